@@ -17,6 +17,9 @@ Tie to the code:
     capacities / height change; every element must be bit-identical to a fresh object and satisfy the
     predicate; steps changing soil conductivity / radii with identical resistances are regressions for
     the repaired `partial_init` (it used to keep the first exchanger's c_0 and grid geometry);
+  * one input at a time: in one process, base -> a NEW object differing in a single physical input -> base again,
+    for every input the response depends on; each run against the Lean model for its own inputs; a variant
+    bit-identical to the base although the model says the input matters is `history-input-ignored-<input>`;
   * the 0.5 % finer-mesh claim: differential run of the Float model with 2x cells and dt/4
     (level translation_validation, reported in the evidence; not a theorem).
 """
@@ -70,6 +73,19 @@ def drive(lines, timeout=900):
     if r.returncode != 0 or len(out) != len(lines):
         raise RuntimeError(f"driver rc={r.returncode} in={len(lines)} out={len(out)} err={r.stderr[-200:]}")
     return out
+
+
+_MODEL_CACHE: dict = {}
+
+
+def drive_cached(lines):
+    """The model is a pure function of its command line: identical requests inside one worker are answered once."""
+    key = tuple(lines)
+    if key not in _MODEL_CACHE:
+        if len(_MODEL_CACHE) > 64:
+            _MODEL_CACHE.clear()
+        _MODEL_CACHE[key] = drive(lines)
+    return _MODEL_CACHE[key]
 
 
 def floats(part: str):
@@ -220,14 +236,23 @@ def run_impl(c, shared=None):
 
     rn.fill_radial_cells = fill
     real_dgtsv = rnb.dgtsv
-    bh_idx = rn.bh_wall_idx
+    cap["Tw"] = []
 
     def dgtsv(dl, d, du, b, **kw):
         if "dl" not in cap:
             cap["dl"], cap["d"], cap["du"] = dl.copy(), d.copy(), du.copy()
+            # the cell the ORACLE takes for the borehole wall: the one that starts at r_b in the table just built
+            try:
+                rin = cap["cells0"][0]
+                cap["wall_idx_oracle"] = int(np.argmax(rin >= float(bhe.b.r_b) * (1.0 - 1e-12)))
+            except Exception:  # noqa: BLE001
+                cap["wall_idx_oracle"] = None
         r = real_dgtsv(dl, d, du, b, **kw)
         cap["T0"].append(float(b[0]))
-        cap["Tb"].append(float(b[bh_idx]))
+        bi = int(rn.bh_wall_idx)
+        cap["Tb"].append(float(b[bi]) if 0 <= bi < len(b) else float("nan"))
+        wi = cap.get("wall_idx_oracle")
+        cap["Tw"].append(float(b[wi]) if wi is not None and 0 <= wi < len(b) else float("nan"))
         cap["Tn2"].append(float(b[-2]))
         cap["Tn1"].append(float(b[-1]))
         return r
@@ -238,15 +263,19 @@ def run_impl(c, shared=None):
         R_b = float(bhe.calc_effective_borehole_resistance())
         res["inputs"] = [float(v) for v in (bhe.b.r_b, bhe.pipe.r_out, bhe.pipe.r_in, bhe.soil.k, bhe.soil.rhoCp, bhe.grout.rhoCp,
                                             bhe.pipe.rhoCp, bhe.fluid.rhoCp, bhe.R_f, R_b, bhe.b.H, bhe.k_s)]
-        res["counts"] = [rn.num_fluid_cells, rn.num_conv_cells, rn.num_pipe_cells, rn.num_grout_cells, rn.num_soil_cells]
         res["r_far"] = float(rn.r_far_field)
         res["init_temp"] = float(rn.init_temp)
+        ret = None
         try:
             with np.errstate(all="ignore"):
-                rn.calc_sts_g_functions(bhe, final_time=c.get("final_time"))
+                ret = rn.calc_sts_g_functions(bhe, final_time=c.get("final_time"))
             res["raised"] = None
         except Exception as e:  # noqa: BLE001
             res["raised"] = type(e).__name__
+        # the object's own idea of the grid AFTER the call (partial_init may adapt it to the exchanger)
+        res["counts"] = [int(rn.num_fluid_cells), int(rn.num_conv_cells), int(rn.num_pipe_cells), int(rn.num_grout_cells), int(rn.num_soil_cells)]
+        res["num_cells"] = int(rn.num_cells)
+        res["bh_idx"] = int(rn.bh_wall_idx)
     finally:
         rnb.dgtsv = real_dgtsv
         del rn.fill_radial_cells      # drop the instance-level wrapper: the object may be used again
@@ -255,6 +284,8 @@ def run_impl(c, shared=None):
     res["cap"] = cap
     if res["raised"] is None:
         res["lntts"], res["g"], res["g_bhw"] = (np.array(v, dtype=float) for v in (rn.lntts, rn.g, rn.g_bhw))
+        # the very objects a caller is left with (not copies): what is returned and what hangs on the object
+        res["refs"] = {"returned": ret, "lntts": rn.lntts, "g": rn.g, "g_bhw": rn.g_bhw, "g_sts": rn.g_sts}
     return res
 
 
@@ -313,6 +344,14 @@ def predicate(c, res):
         return fails, m   # not a valid borehole: the remaining claims are not made
     if not np.all(temp == res["init_temp"]):
         fails.append(("init-temp", "initial temperatures are not the uniform init_temp"))
+    # -- where the borehole wall is read: the cell at bh_wall_idx must be the first soil cell, starting at r_b
+    bh = res.get("bh_idx")
+    wall = nf + nc + npi + ng
+    m["annulus_mm"] = float(bounds[4] - bounds[3]) * 1000.0
+    if bh is None or not (0 <= bh < n) or bh != wall or rel(float(r_in[bh]), inp[0]) > 1e-12:
+        where = f"r = {float(r_in[bh])!r}" if bh is not None and 0 <= bh < n else "outside the table"
+        fails.append(("wall-index", f"bh_wall_idx = {bh} ({where}) but the cell that starts at the borehole wall r_b = {inp[0]!r} is cell {wall} "
+                                    f"(counts {counts})"))
     # -- fluid thermal mass
     mass = math.fsum(float(rc[i]) * float(vol[i]) for i in range(nf))
     want = 2.0 * math.pi * inp[2] ** 2 * inp[7]
@@ -336,8 +375,30 @@ def predicate(c, res):
         fails.append(("raised", f"valid borehole but calc_sts_g_functions raised {res['raised']}"))
         return fails, m
     T0, Tb, Tn2, Tn1 = (np.array(cap[k]) for k in ("T0", "Tb", "Tn2", "Tn1"))
+    Tw = np.array(cap.get("Tw") or cap["Tb"])     # temperature of the cell that starts at r_b (oracle's choice of cell)
     steps = len(T0)
     dt, q, Ti = 120.0, 1.0, res["init_temp"]
+    if steps == 0:
+        # a response came back although no tridiagonal solve was observed (e.g. served from a cache): only the
+        # checks on the 30 resampled points can be made here; the comparison with the model / a fresh object decides the rest
+        m["no_time_march_observed"] = True
+        lnt, g, gb = res["lntts"], res["g"], res["g_bhw"]
+        c0 = 2.0 * math.pi * inp[3]
+        if not (np.all(np.isfinite(g)) and np.all(np.isfinite(gb)) and np.all(np.isfinite(lnt))):
+            fails.append(("not-finite", "non-finite g value"))
+            return fails, m
+        if len(g) != 30 or len(gb) != 30 or len(lnt) != 30:
+            fails.append(("resample-length", f"{len(g)} resampled points, expected 30"))
+        if np.any(np.diff(lnt) <= 0):
+            fails.append(("lntts-not-increasing", "resampled ln(t/ts) not strictly increasing"))
+        if np.any(np.diff(g) < -1e-9 * np.maximum(1.0, np.abs(g[1:]))):
+            fails.append(("g-not-monotone", f"g decreases: min step {float(np.min(np.diff(g))):.3e}"))
+        if np.any(np.diff(gb) < -1e-9) or float(np.min(gb)) < -1e-9:
+            fails.append(("gbhw-negative" if float(np.min(gb)) < -1e-9 else "gbhw-not-monotone", "g_bhw negative or decreasing"))
+        if float(np.min(g)) < -c0 * inp[9] - 1e-9 * max(1.0, abs(c0 * inp[9])):
+            fails.append(("g-below-floor", f"g = {float(np.min(g))!r} < -2 pi k R_b*"))
+        m["g_last"], m["gb_last"] = float(g[-1]), float(gb[-1])
+        return fails, m
     m["steps"], m["period_h"] = steps, steps * dt / 3600.0
     Tfin = np.array(cap["cells"][5], dtype=float)
     lnt, g, gb = res["lntts"], res["g"], res["g_bhw"]
@@ -391,9 +452,13 @@ def predicate(c, res):
         fails.append(("g-below-floor", f"g = {float(np.min(g))!r} < -2 pi k R_b* = {floor!r}"))
     # the 30 points are the raw response at both ends, and inside the raw range
     g_first, g_last = c0 * ((float(T0[0]) - Ti) / q - inp[9]), c0 * ((float(T0[-1]) - Ti) / q - inp[9])
-    gb_last = c0 * ((float(Tb[-1]) - Ti) / q)
-    if rel(float(g[0]), g_first, 1.0) > 1e-9 or rel(float(g[-1]), g_last, 1.0) > 1e-9 or rel(float(gb[-1]), gb_last, 1.0) > 1e-9:
+    gb_last = c0 * ((float(Tw[-1]) - Ti) / q)
+    gb_first = c0 * ((float(Tw[0]) - Ti) / q)
+    if rel(float(g[0]), g_first, 1.0) > 1e-9 or rel(float(g[-1]), g_last, 1.0) > 1e-9:
         fails.append(("g-scaling", f"g ends {float(g[0])!r},{float(g[-1])!r} are not 2 pi k ((T_f - T_0)/q - R_b*) = {g_first!r},{g_last!r}"))
+    if not (rel(float(gb[-1]), gb_last, 1.0) <= 1e-9 and rel(float(gb[0]), gb_first, 1.0) <= 1e-9):
+        fails.append(("gbhw-scaling", f"g_bhw ends {float(gb[0])!r},{float(gb[-1])!r} are not 2 pi k (T_wall - T_0)/q = {gb_first!r},{gb_last!r} with T_wall the "
+                                      f"temperature of the cell that starts at r_b (cell {cap.get('wall_idx_oracle')}; the object reads cell {bh})"))
     t_first = t_last = (1e-12 - dt) + dt      # the clock starts at 1e-12 - 120 and is advanced before the first solve
     for _ in range(steps - 1):
         t_last += dt
@@ -413,10 +478,24 @@ def close(a, b, tol):
 
 
 def worker(c):
+    """Never lets an exception escape: whatever goes wrong while comparing (the implementation changed shape, raised
+    somewhere new, returned something unexpected) is reported as a broken correspondence for this case."""
+    import traceback
+
+    try:
+        kind = c.get("kind")
+        r = history_worker(c) if kind == "history" else one_at_a_time_worker(c) if kind == "one-at-a-time" else case_worker(c)
+        r.pop("refs", None)
+        return r
+    except Exception as e:  # noqa: BLE001
+        tb = traceback.format_exc(limit=4).strip().splitlines()
+        return {"case": c, "history": c.get("kind") in ("history", "one-at-a-time"), "corr": [("worker-exception", f"{type(e).__name__}: {e} @ {tb[-3:] }"[:400])],
+                "fails": [], "metrics": {}, "info": {}, "elements": 0, "worker_exception": True}
+
+
+def case_worker(c):
     import numpy as np
 
-    if c.get("kind") == "history":
-        return history_worker(c)
     out = {"case": c, "corr": [], "fails": [], "metrics": {}, "info": {}}
     try:
         res = run_impl(c)
@@ -441,7 +520,7 @@ def worker(c):
         ratio1 = r_in_tube / r_conv
         l1, l2 = math.log(float(ratio1)), math.log(float(F(inp[0]) / r_in_tube))
         lines.append("radial-cells-rat " + " ".join(core.rs(v) for v in [SQRT2, PI, ratio1, l1, l2] + inp))
-    mo = drive(lines)
+    mo = drive_cached(lines)
     cap = res["cap"]
 
     def bad(stream, detail):
@@ -506,11 +585,15 @@ def worker(c):
         parts = mo[2].split("|")
         head = parts[0].split()
         n_model = int(head[1])
-        if n_model != len(cap["T0"]):
+        marched = bool(cap["T0"])    # no solve observed: the response was produced without a time march (a cache); only outputs are compared
+        if marched and n_model != len(cap["T0"]):
             bad("steps", f"implementation solved {len(cap['T0'])} steps, model {n_model}")
+        out["metrics"]["marched"] = marched
         worst = 0.0
-        for name, part, iv in (("lntts", parts[1], res["lntts"]), ("g", parts[2], res["g"]), ("g_bhw", parts[3], res["g_bhw"]),
-                               ("finalT", parts[5], np.array(cap["cells"][5], dtype=float))):
+        streams = [("lntts", parts[1], res["lntts"]), ("g", parts[2], res["g"]), ("g_bhw", parts[3], res["g_bhw"])]
+        if marched and "cells" in cap:
+            streams.append(("finalT", parts[5], np.array(cap["cells"][5], dtype=float)))
+        for name, part, iv in streams:
             mv = np.array(floats(part))
             if mv.shape != iv.shape:
                 bad("sts-shape", f"{name}: {mv.shape} vs {iv.shape}")
@@ -521,15 +604,18 @@ def worker(c):
                 j = int(np.argmax(err))
                 bad("sts-" + name, f"{name}[{j}]: impl {iv[j]!r} model {mv[j]!r}")
         out["metrics"]["corr_sts"] = worst
+        out["model30"] = [floats(parts[1]), floats(parts[2]), floats(parts[3])]
         raw = floats(parts[4])
         c0 = 2 * math.pi * inp[3]
-        g_first = c0 * ((cap["T0"][0] - 20.0) - inp[9])
-        if not close(raw[2], g_first, 1e-7):
+        g_first = c0 * ((cap["T0"][0] - 20.0) - inp[9]) if cap["T0"] else float("nan")
+        if cap["T0"] and not close(raw[2], g_first, 1e-7):
             bad("sts-raw-first", f"first raw g: impl {g_first!r} model {raw[2]!r}")
         # model's own bookkeeping of the far-field flux against the implementation's temperatures
         leak_impl = math.fsum((np.array(cap["Tn2"]) - np.array(cap["Tn1"])).tolist())
         leak_model = bits2f(head[3])
         out["metrics"]["leak_model_vs_impl"] = abs(leak_model - leak_impl) / max(abs(leak_impl), 1e-30) if leak_impl else abs(leak_model)
+    if res["raised"] is None:
+        out["impl30"] = [[float(v) for v in res[k]] for k in ("lntts", "g", "g_bhw")]
     # ---- predicate on the implementation
     valid = not c.get("degenerate")
     if valid and "cells0" in cap:
@@ -538,7 +624,7 @@ def worker(c):
         out["metrics"].update(metrics)
     # ---- 0.5 % finer-mesh differential (translation validation): 2x cells, dt/4, same physical duration
     if c.get("fine") and res["raised"] is None and valid:
-        steps = len(cap["T0"])
+        steps = len(cap["T0"]) or int(mo[2].split("|")[0].split()[1])
         fo = drive([f"radial-sts {args} {ft} 2 4 {4 * steps}"])[0]
         if fo.startswith("ok"):
             parts = fo.split("|")
@@ -654,6 +740,7 @@ def history_worker(c):
 
     out = {"case": c, "history": True, "fails": [], "corr": [], "metrics": {}, "elements": 0}
     shared = []
+    kept = None      # what a caller holds after call #0: the returned arrays and obj.lntts / obj.g / obj.g_bhw / obj.g_sts
     for i, (sub, var) in enumerate(zip(c["seq"], c["vars"])):
         try:
             fresh = run_impl(sub)
@@ -661,6 +748,8 @@ def history_worker(c):
         except Exception as e:  # noqa: BLE001  (object construction failed: outside C10)
             out["build_failed"] = f"{type(e).__name__}: {e}"[:200]
             return out
+        if i == 0 and got.get("refs"):
+            kept = snapshot_refs(sub, got)
         out["elements"] += 1
         diffs = []
         if fresh["raised"] != got["raised"]:
@@ -669,10 +758,12 @@ def history_worker(c):
             if fresh[k] != got[k]:
                 diffs.append(f"{k} {got[k]!r} vs fresh {fresh[k]!r}")
         fc, gc = fresh["cap"], got["cap"]
+        # what the instrumentation saw on the way (grid, matrix, number of solves) is compared only where both runs showed it:
+        # an implementation may legitimately skip work it has done before, the OUTPUTS below must be identical regardless
         for k in ("cells0", "dl", "d", "du"):
-            if (k in fc) != (k in gc) or (k in fc and not np.array_equal(fc[k], gc[k])):
-                diffs.append(f"{k} differs" if k in fc and k in gc else f"{k} present only once")
-        if len(fc["T0"]) != len(gc["T0"]):
+            if k in fc and k in gc and not np.array_equal(fc[k], gc[k]):
+                diffs.append(f"{k} differs")
+        if fc["T0"] and gc["T0"] and len(fc["T0"]) != len(gc["T0"]):
             diffs.append(f"steps {len(gc['T0'])} vs fresh {len(fc['T0'])}")
         if fresh["raised"] is None and got["raised"] is None:
             for k in HIST_FIELDS:
@@ -689,6 +780,171 @@ def history_worker(c):
             for k in ("balance", "tile_edges", "fluid_mass_rel", "layers_rel"):
                 if metrics.get(k) is not None:
                     out["metrics"][k] = max(out["metrics"].get(k, 0.0), abs(metrics[k]))
+    if kept is not None and out["elements"] > 1:
+        check_kept(c, kept, out)
+    return out
+
+
+def snapshot_refs(sub, got):
+    """The objects a caller is left with after a call, plus a bitwise snapshot of their contents."""
+    import numpy as np
+
+    refs = got["refs"]
+    live = {}
+    ret = refs.get("returned")
+    if isinstance(ret, tuple):
+        for j, a in enumerate(ret):
+            live[f"returned[{j}]"] = a
+    for k in ("lntts", "g", "g_bhw"):
+        live["obj." + k] = refs.get(k)
+    snap = {k: np.array(v, dtype=float, copy=True) for k, v in live.items() if v is not None}
+    gs = refs.get("g_sts")
+    xs = np.array(got["lntts"], dtype=float, copy=True)
+    try:
+        gs_vals = np.array(gs(xs), dtype=float, copy=True) if gs is not None else None
+    except Exception:  # noqa: BLE001
+        gs_vals = None
+    return {"live": live, "snap": snap, "g_sts": gs, "g_sts_x": xs, "g_sts_vals": gs_vals, "sub": sub, "res": got}
+
+
+def check_kept(c, kept, out):
+    """After the later calls on the same object: do the arrays handed out by call #0 still hold call #0's response?"""
+    import numpy as np
+
+    changed = []
+    for k, snap in kept["snap"].items():
+        now = np.array(kept["live"][k], dtype=float)
+        if now.shape != snap.shape or not np.array_equal(now, snap):
+            j = int(np.argmax(np.abs(now - snap))) if now.shape == snap.shape else -1
+            changed.append(f"{k}[{j}] was {float(snap[j])!r}, now {float(now[j])!r}" if j >= 0 else f"{k} changed shape {snap.shape}->{now.shape}")
+    if kept["g_sts"] is not None and kept["g_sts_vals"] is not None:
+        try:
+            now = np.array(kept["g_sts"](kept["g_sts_x"]), dtype=float)
+            if not np.array_equal(now, kept["g_sts_vals"]):
+                changed.append("obj.g_sts (kept interpolator) evaluates differently")
+        except Exception as e:  # noqa: BLE001
+            changed.append(f"obj.g_sts (kept interpolator) now raises {type(e).__name__}")
+    out["metrics"]["kept_arrays_checked"] = len(kept["snap"])
+    if not changed:
+        return
+    # re-run the C10 predicate for borehole #0 on what the caller now holds
+    res0 = dict(kept["res"])
+    live = kept["live"]
+    pick = lambda a, b: np.array(live[a] if live.get(a) is not None else live[b], dtype=float)   # noqa: E731
+    try:
+        res0["lntts"] = pick("returned[0]", "obj.lntts")
+        res0["g"] = pick("returned[1]", "obj.g")
+        res0["g_bhw"] = np.array(live["obj.g_bhw"], dtype=float)
+        fails, _ = predicate(kept["sub"], res0)
+    except Exception as e:  # noqa: BLE001
+        fails = [("predicate-not-evaluable", f"{type(e).__name__}: {e}")]
+    fails = [(k, w) for k, w in fails if not k.startswith("far-field-leak")]
+    what = (f"the arrays handed out by call #0 on a RadialNumericalBH (returned tuple / obj.lntts, obj.g, obj.g_bhw) were overwritten by the "
+            f"{len(c['seq']) - 1} later call(s) on the same object ({', '.join(c['vars'][1:])}): " + "; ".join(changed[:4]))
+    if fails:
+        out["fails"].append(("history-earlier-result-overwritten",
+                             what + " -- they no longer describe borehole #0: " + "; ".join(f"{k}: {w}" for k, w in fails[:3])))
+    else:
+        out["corr"].append(("history", what + " (the C10 predicate still holds on the changed arrays)"))
+
+
+
+# ----------------------------------------------------------------------------- 'one input at a time' stream
+# In ONE process: base exchanger on a fresh object, then a NEW object whose exchanger differs from the base in a single
+# physical input, then the base again (base -> variant -> base), for every input the response depends on.  Each run is
+# compared with the Lean model for ITS OWN inputs (and gets the usual predicate); a variant that comes out bit-identical to
+# the base although the model says the input matters is `history-input-ignored-<input>`; a base that does not reproduce
+# itself after the variant is `history-base-not-reproduced`.
+def one_at_a_time_variants(rng, base):
+    v = []
+    if base["kind"] == "stub":
+        rng_in = {"rc_soil": (1.3e6, 3.9e6), "rc_grout": (1.5e6, 4.2e6), "rc_pipe": (1.2e6, 2.2e6), "rc_fluid": (3.4e6, 4.25e6)}
+        for k, (lo, hi) in rng_in.items():
+            v.append((k, {k: other_in(rng, base[k], lo, hi)}))
+        v.append(("k_soil", {"k_soil": _round(base["k_soil"] * 1.3, 4), "k_s": _round(base["k_soil"] * 1.3, 4)}))
+        v.append(("R_f", {"R_f": _round(base["R_f"] * 0.7, 5)}))
+        v.append(("R_b", {"R_b": _round(base["R_b"] * 1.2, 5)}))
+        v.append(("r_b", {"r_b": _round(min(0.12, base["r_b"] * 1.1), 5) if base["r_b"] < 0.119 else 0.11}))
+        v.append(("r_out", {"r_out": _round(base["r_out"] * 0.95, 5)}))
+        v.append(("r_in", {"r_in": _round(base["r_in"] * 0.97, 5)}))
+        v.append(("H", {"H": _round(base["H"] * 1.25 if base["H"] < 300 else base["H"] * 0.8, 4)}))
+        v.append(("final_time", {"final_time": 30 * 3600.0 if base.get("final_time") is None else None}))
+    else:
+        v.append(("rc_grout", {"rc_grout": other_in(rng, base["rc_grout"], 1.5e6, 4.2e6)}))
+        v.append(("rc_soil", {"rc_soil": other_in(rng, base["rc_soil"], 1.3e6, 3.9e6)}))
+        v.append(("rc_pipe", {"rc_pipe": other_in(rng, base["rc_pipe"], 1.2e6, 2.2e6)}))
+        v.append(("k_grout", {"k_grout": _round(base["k_grout"] * (1.3 if base["k_grout"] < 1.8 else 0.7), 3)}))
+        v.append(("k_soil", {"k_soil": _round(base["k_soil"] * (1.3 if base["k_soil"] < 3.0 else 0.7), 3)}))
+        v.append(("k_pipe", {"k_pipe": _round(base["k_pipe"] * (1.3 if base["k_pipe"] < 0.45 else 0.75), 3)}))
+        v.append(("fluid", {"fluid": ["PropyleneGlycol", 35.0] if base["fluid"][0] != "PropyleneGlycol" else ["Water", 0.0]}))
+        v.append(("m_flow", {"m_flow": _round(base["m_flow"] * (2.0 if base["m_flow"] < 0.7 else 0.5), 4)}))
+        v.append(("H", {"H": _round(base["H"] * 1.25 if base["H"] < 300 else base["H"] * 0.8, 4)}))
+        v.append(("final_time", {"final_time": 30 * 3600.0}))
+        if base["pipe_kind"] == "SINGLEUTUBE":
+            v.append(("r_b", {"r_b": _round(base["r_b"] + 0.004, 4)}))
+            v.append(("r_out", {"r_out": _round(base["r_out"] * 1.03, 5)}))      # r_in kept: thicker wall
+            v.append(("r_in", {"r_in": _round(base["r_in"] * 0.97, 5)}))
+            v.append(("shank_spacing", {"s": _round(base["s"] * 0.8, 5)}))
+    return [(name, dict(base, **chg)) for name, chg in v]
+
+
+def gen_one_at_a_time(rng, stub=False, h_max=150.0):
+    if stub:
+        base = gen_stub(rng)
+        base["H"] = _round(rng.uniform(20, h_max), 4)
+        base["final_time"] = None
+    else:
+        base = gen_real(rng, "SINGLEUTUBE", H=_round(rng.uniform(20, h_max), 4))
+        # leave room for the geometric variants (+4 mm radius, +3 % pipe)
+        base["r_b"] = _round(min(base["r_b"], 0.114), 4)
+        base["s"] = _round(min(base["s"], 2 * (base["r_b"] - 2.1 * base["r_out"]) * 0.9), 5)
+    return {"kind": "one-at-a-time", "base": base, "variants": [[n, c_] for n, c_ in one_at_a_time_variants(rng, base)],
+            "H": base["H"] * 3 * 14}
+
+
+def same30(a, b):
+    return a is not None and b is not None and a == b
+
+
+def one_at_a_time_worker(c):
+    out = {"case": c, "oat": True, "fails": [], "corr": [], "metrics": {}, "inputs_tried": [], "runs": 0}
+    base = c["base"]
+    for name, var in c["variants"]:
+        seq = []
+        for sub in (base, var, base):
+            try:
+                r = case_worker(sub)
+            except Exception as e:  # noqa: BLE001
+                r = {"corr": [("oat-run-exception", f"{name}: {type(e).__name__}: {e}"[:300])], "fails": [], "case": sub}
+            seq.append(r)
+            out["runs"] += 1
+        b1, v, b2 = seq
+        if "build_failed" in v or "build_failed" in b1:
+            out["inputs_tried"].append(name + ":build-failed")
+            continue
+        out["inputs_tried"].append(name)
+        hist = {"kind": "one-at-a-time", "base": base, "variants": [[name, var]]}     # the two-call history, replayable alone
+        for tag, r in (("base", b1), (name, v), ("base-again", b2)):
+            for stream, detail in r.get("corr", []):
+                out["corr"].append((stream, f"[one-at-a-time {name}: {tag}] {detail}"))
+            for key, what in r.get("fails", []):
+                out["fails"].append((key if key.startswith("far-field-leak") else "history:" + key,
+                                     f"[one input at a time, {name}: {tag}] {what}", hist))
+        i1, iv, i2 = b1.get("impl30"), v.get("impl30"), b2.get("impl30")
+        m1, mv = b1.get("model30"), v.get("model30")
+        if same30(i1, iv) and m1 is not None and mv is not None:
+            dm = max(abs(x - y) for a, b in zip(m1, mv) for x, y in zip(a, b)) if all(len(a) == len(b) for a, b in zip(m1, mv)) else float("inf")
+            if dm > 1e-9:
+                j = max(range(len(mv[1])), key=lambda j: abs(mv[1][j] - iv[1][j]))
+                out["fails"].append((f"history-input-ignored-{name}",
+                                     f"a NEW RadialNumericalBH for an exchanger that differs from the previous one only in {name} "
+                                     f"({ {k: (base.get(k), var.get(k)) for k in var if var.get(k) != base.get(k)} }) returned the previous exchanger's response bit for bit; "
+                                     f"the model for its own inputs differs from it by up to {dm:.3e} (g[{j}]: got {iv[1][j]!r}, model {mv[1][j]!r})", hist))
+        if i1 is not None and i2 is not None and not same30(i1, i2):
+            j = max(range(len(i1[1])), key=lambda j: abs(i1[1][j] - i2[1][j])) if len(i1[1]) == len(i2[1]) else 0
+            out["fails"].append(("history-base-not-reproduced",
+                                 f"the base exchanger computed again (new object) right after the variant in {name} differs from its first computation: "
+                                 f"g[{j}] {i2[1][j]!r} vs {i1[1][j]!r}", hist))
     return out
 
 
@@ -748,6 +1004,14 @@ def run(ctx: core.Ctx):
         real = [gen_real(rng) for _ in range(n_real)]
         # make sure the ends of the height range are there
         real[0]["H"], real[1]["H"] = 400.0, 20.0
+        # wide grout annuli: the largest boreholes with the smallest pipes (r_b - sqrt2 r_po up to ~100 mm)
+        for k, c_ in enumerate(real[2:2 + (4 if quick else 60)]):
+            if c_["pipe_kind"] != "COAXIAL":
+                c_["r_b"] = [0.12, 0.11, 0.115, 0.1][k % 4]
+                c_["r_out"] = [0.01335, 0.0167][k % 2]
+                c_["r_in"] = _round(c_["r_out"] * 0.82, 5)
+                room = c_["r_b"] - 2 * c_["r_out"]
+                c_["s"] = _round(rng.uniform(0.02, 2 * room * 0.9) if c_["pipe_kind"] == "SINGLEUTUBE" else rng.uniform(0.06, 2 * room * 0.9), 5)
         stubs = [gen_stub(rng) for _ in range(n_stub)]
         degs = ["Rf0", "Rpg0", "nowall", "rc_soil0", "H0", "tiny_final", "thin_pipe_neg_radius"]
         stubs += [gen_stub(rng, d) for d in (degs if quick else degs * 6)]
@@ -761,21 +1025,53 @@ def run(ctx: core.Ctx):
         # regressions for fix 6f0d501 (partial_init now refreshes c_0 and the grid geometry): always present
         for pr in ("soil_k", "radii"):
             hist += [gen_history(rng, stub=(i % 2 == 1), probe=pr, h_max=120.0) for i in range(n_pr)]
-        cases = cases + fine + real + stubs + hist
+        n_or, n_os = (3, 2) if quick else (30, 20)
+        oat = [gen_one_at_a_time(rng, stub=False, h_max=150.0 if quick else 400.0) for _ in range(n_or)] \
+            + [gen_one_at_a_time(rng, stub=True, h_max=150.0 if quick else 400.0) for _ in range(n_os)]
+        cases = cases + fine + real + stubs + hist + oat
     # longest first so that the pool stays busy
     order = sorted(range(len(cases)), key=lambda i: -(cases[i].get("H") or 0) * (9 if cases[i].get("fine") else 1))
-    results = core.pool_map(worker, [cases[i] for i in order], workers=16)
+    try:
+        results = core.pool_map(worker, [cases[i] for i in order], workers=16)
+    except Exception as e:  # noqa: BLE001  (e.g. an unpicklable result): fall back to in-process, case by case
+        ctx.log("pool failed, running in-process:", type(e).__name__, e)
+        results = [worker(cases[i]) for i in order]
 
-    fine_rows, worst, hist_samples = [], {}, 0
-    for r in results:
+    fine_rows, worst, hist_samples, oat_samples = [], {}, [0], [0]
+
+    def note_corr(c, r):
+        for stream, detail in r.get("corr", []):
+            ctx.disagreements_checked += 1
+            name = stream + "-correspondence"
+            if name not in ctx.broken:
+                ctx.broken.append(name)
+                ctx.extra.setdefault("first_disagreement", {})[stream] = {"case": c, "detail": detail}
+
+    def absorb(r):
         c = r["case"]
+        if r.get("worker_exception"):
+            ctx.count("worker-exception(reported as broken correspondence)")
+            ctx.case(signature(c), False)
+            note_corr(c, r)
+            return
+        if r.get("oat"):
+            ctx.case(signature(c), True, {"one_at_a_time": r["inputs_tried"]} if oat_samples[0] < 1 else None)
+            oat_samples[0] += 1
+            ctx.count("one-at-a-time:bases")
+            ctx.count("one-at-a-time:runs(base,variant,base)", r["runs"])
+            for nm in r["inputs_tried"]:
+                ctx.count("one-at-a-time:input=" + nm)
+            note_corr(c, r)
+            for key, what, hist_ in r["fails"]:
+                ctx.finding(key, what, {"case": hist_})
+            return
         if r.get("history"):
             if "build_failed" in r:
                 ctx.count("build-failed(outside C10):history")
                 ctx.case(signature(c), False)
-                continue
-            ctx.case(signature(c), True, {"history": c["vars"], "H": [x["H"] for x in c["seq"]]} if hist_samples < 2 else None)
-            hist_samples += 1
+                return
+            ctx.case(signature(c), True, {"history": c["vars"], "H": [x["H"] for x in c["seq"]]} if hist_samples[0] < 2 else None)
+            hist_samples[0] += 1
             ctx.count(f"history:len={len(c['seq'])}")
             ctx.count("history:objects=" + ("stub" if c["seq"][0]["kind"] == "stub" else c["seq"][0]["pipe_kind"]))
             for v in c["vars"][1:]:
@@ -783,15 +1079,16 @@ def run(ctx: core.Ctx):
             ctx.count("history:boreholes-compared-bitwise", r["elements"])
             for k, v in r["metrics"].items():
                 worst["history_" + k] = max(worst.get("history_" + k, 0.0), v)
+            note_corr(c, r)
             for key, what in r["fails"]:
                 ctx.finding(key, what, {"case": c})
-            continue
+            return
         kind = c["kind"] if c["kind"] == "stub" else c["pipe_kind"]
         if "build_failed" in r:
             ctx.count("build-failed(outside C10):" + kind)
             ctx.case(signature(c), False)
-            continue
-        inp, mt = r["inputs"], r["metrics"]
+            return
+        inp, mt = r.get("inputs") or [float("nan")] * 12, r.get("metrics", {})
         computed = r.get("raised") is None and not c.get("degenerate") and not mt.get("invalid_geometry")
         ctx.case(signature(c), computed, {"case": c, "steps": mt.get("steps"), "g_last": mt.get("g_last"), "balance": mt.get("balance"),
                                           "leak": mt.get("leak")} if computed else None)
@@ -808,16 +1105,14 @@ def run(ctx: core.Ctx):
         if mt.get("invalid_geometry"):
             ctx.count("invalid-geometry(no claim)")
         if computed:
-            ctx.count("period_h:" + bucket(mt["period_h"], [0, 49.1, 100, 150, 400, 1000, 5000], "{:g}"))
+            if mt.get("period_h") is not None:
+                ctx.count("period_h:" + bucket(mt["period_h"], [0, 49.1, 100, 150, 400, 1000, 5000], "{:g}"))
+            if mt.get("annulus_mm") is not None:
+                ctx.count("grout_annulus_mm:" + bucket(mt["annulus_mm"], [0, 20, 40, 67.5, 80, 200], "{:g}"))
             for k in ("balance", "leak", "corr_cells", "corr_cells_rat", "corr_tri", "corr_sts", "tile_gap", "tile_edges", "fluid_mass_rel", "layers_rel"):
                 if mt.get(k) is not None:
                     worst[k] = max(worst.get(k, 0.0), abs(mt[k]))
-        for stream, detail in r["corr"]:
-            ctx.disagreements_checked += 1
-            name = stream + "-correspondence"
-            if name not in ctx.broken:
-                ctx.broken.append(name)
-                ctx.extra.setdefault("first_disagreement", {})[stream] = {"case": c, "detail": detail}
+        note_corr(c, r)
         for key, what in r["fails"]:
             ctx.finding(key, what, {"case": c, "inputs": dict(zip(INPUT_KEYS, inp)), "metrics": mt})
         if "fine" in r:
@@ -828,6 +1123,15 @@ def run(ctx: core.Ctx):
                             {"case": c, "fine": f})
             elif "error" in f:
                 ctx.broken.append("finer-mesh-run: " + f["error"])
+    for r in results:
+        try:
+            absorb(r)
+        except Exception as e:  # noqa: BLE001  (never an infrastructure error: the case is reported as not comparable)
+            ctx.disagreements_checked += 1
+            if "result-shape-correspondence" not in ctx.broken:
+                ctx.broken.append("result-shape-correspondence")
+                ctx.extra.setdefault("first_disagreement", {})["result-shape"] = {"case": r.get("case") if isinstance(r, dict) else None,
+                                                                                   "detail": f"{type(e).__name__}: {e}"}
     ctx.programs = 1
     ctx.exhaustive = False
     ctx.extra["worst_observed"] = {k: float(f"{v:.3e}") for k, v in worst.items()}
